@@ -2,6 +2,7 @@ import TpmVerif.Base.Trace
 import TpmVerif.Model.Persist
 import TpmVerif.Model.Cancel
 import TpmVerif.Gen.Consts
+import TpmVerif.Check.Admin
 /-! Checkers for C03 / C05 / C07 traces: the harness reports per command whether the NV image changed outside the
     ORDERLY_DATA block, how many blobs storage accepted and whether storage agrees with the image; the rules below are
     the conclusions of the theorems in Props.C03/C05/C07 evaluated on those observations. -/
@@ -11,6 +12,7 @@ open TpmVerif TpmVerif.Model.Persist
 structure CS where
   rep : Report := {}
   line : Nat := 0
+  adm : TpmVerif.Check.Admin.AS := {}
 
 def mism (c : CS) (msg : String) : CS :=
   { c with rep := { c.rep with mismatches := c.rep.mismatches ++ [s!"line {c.line}: {msg}"] } }
@@ -38,6 +40,11 @@ def stepC03 (c : CS) (l : Line) : CS :=
       let c := if l.str "eq" = "0" then
                  mism c s!"SPEC[storage-differs-from-image] after command {l.str "cc"} (rc={l.nat "rc"}) storage and the NV image differ outside the ORDERLY_DATA block" else c
       c
+  | "a" =>
+      let c := ev c
+      let (adm', ms, br) := TpmVerif.Check.Admin.step c.adm l
+      let c := branch { c with adm := adm' } br
+      ms.foldl mism c
   | "cut" =>
       let c := ev c
       let c := branch c s!"cut/variant={l.nat "variant"}"
